@@ -28,7 +28,10 @@ returns), ['spawn', which] (fresh tasks are attached), ['setfile'],
 ['cancel', id] (the task that awaits call `id` is cancelled — `task.cancel()`, which is also what the time-out of an
 `asyncio.wait_for` around the request does — wherever that call is suspended: waiting for the lock, in the slow task
 cancellation, in the file-system call, inside a listener), ['reload'] (`write_cache()` then `read_cache()` on the same
-manager: what stop/start of a client does to a transfer that is still held).
+manager: what stop/start of a client does to a transfer that is still held), ['fsfault', n] (a fault of the environment:
+from now on the file system refuses to remove the local file — `aiofiles.os.remove` raises an `OSError`, n = 1
+permission denied, 2 the path is a directory, 3 read-only file system, 4 busy — until ['fsfault', 0]; it may be switched
+while a request is suspended in front of the file-system call).
 `stubborn` = a cancelled task that is cancelled again (which is what cancelling the `gather` waiting for it does) does
 not end any sooner.
 """
@@ -38,6 +41,7 @@ import asyncio
 import contextvars
 import logging
 import copyreg
+import errno
 import hashlib
 import os
 import pickle
@@ -62,6 +66,8 @@ STATE_CLASS = {'VIRGIN': 'VirginState', 'QUEUED': 'QueuedState', 'INITIALIZING':
 REASONS = {0: 'Blocked', 1: 'Requested', 2: 'Cancelled', 3: 'File not shared.', 4: 'File read error.', 5: 'Queued'}
 REASON_NO = {v: k for k, v in REASONS.items()}
 T0 = 1000.0
+# ['fsfault', n]: what `os.remove` raises while the fault lasts (all of them OSError, as the file system raises them)
+FS_FAULTS = {1: errno.EACCES, 2: errno.EISDIR, 3: errno.EROFS, 4: errno.EBUSY}
 # the call on whose behalf code is running: set by the task that awaits the call, inherited by every task the real code
 # creates on the way (gather / ensure_future / shield copy the context), so attribution does not depend on the code
 # doing all its work in the caller's own task
@@ -166,6 +172,7 @@ async def _scenario(loop, case, path):
     log = []            # chronological: dicts {kind, who, …, fx}
     gate = _Gate(loop)
     rec = {'on': False}
+    env = {'fsfault': 0}      # the fault of the file system that is on at the moment (0 = none)
     cell = {'t': None, 'closing': False}      # the transfer under observation (copies read from the cache are not)
     cdir = os.path.dirname(path)
 
@@ -257,6 +264,10 @@ async def _scenario(loop, case, path):
         return await real_asyncos.path.exists(p)
 
     async def rec_remove(p):
+        if env['fsfault']:
+            # the file system refuses: nothing is removed (not a side effect — an attempt)
+            add('rm-fail', path=os.path.basename(str(p)), errno=FS_FAULTS[env['fsfault']])
+            raise OSError(FS_FAULTS[env['fsfault']], os.strerror(FS_FAULTS[env['fsfault']]), str(p))
         add('rm', path=os.path.basename(str(p)))
         return await real_asyncos.remove(p)
 
@@ -512,6 +523,13 @@ async def _scenario(loop, case, path):
                         fh.write(b'y' * 10)
                     add('env', who=None)        # the environment changed the file: later entries compare to this one
                     lines.append('ok')
+                elif kind == 'fsfault':
+                    if len(a) != 2 or a[1] not in (0, *FS_FAULTS):
+                        lines.append('err bad-arg')
+                        continue
+                    env['fsfault'] = a[1]
+                    add('fault', who=None, on=a[1])
+                    lines.append('ok')
                 else:
                     lines.append('err bad-op')
             await simloop.settle()
@@ -724,6 +742,11 @@ def _monitor_one(case: dict, res: dict) -> list[Violation]:
     not be all-or-nothing (on the unchanged code a cancelled `abort()` of a DOWNLOADING transfer leaves it DOWNLOADING
     with its tasks cancelled: no edge was observed, the next request is served on DOWNLOADING), and it need not stop at
     the moment its caller is told (code that shields the whole request, lock included, is correct).
+    A removal the file system refuses (`fsfault`: `os.remove` raises OSError) is an attempt, not a side effect (`rm-fail`
+    in the log, never counted); what the property demands under such a fault is what it demands anyway: the request is
+    either carried out or refused without having done anything — code that tries the removal first and refuses cleanly
+    is correct, code that refuses after it has cancelled the tasks or written a timestamp is not
+    (`C03-refused-with-effect`), code that lets the OSError escape after it has done so is not either (`C03-impl-error`).
     Deliberately NOT flagged here: an allowed request that is refused, a method that moves along a documented edge to
     a state it is not named after — those break `C03_table_complete` / `C03_table_sound` or the correspondence; a
     state change no listener is told about at all (the property speaks of what listeners observe)."""
@@ -1057,6 +1080,79 @@ def _pair_cancel_cases(tier: str) -> list[dict]:
     return out
 
 
+def _fault_cases(tier: str) -> list[dict]:
+    """EXHAUSTIVE over (direction, state, request = every state method and every manager request) x WHEN the file system
+    starts refusing removals — before the request is made (nothing is slow: the request runs through in one go), or
+    while the request is suspended in front of the file-system call (its tasks are cancelled and have ended by then) —
+    x is the file there or only its path; the fault (one of four OSErrors, in turn) then ends and a second request is
+    made (the same one again through the other entrance, or `queue`), so that what a refusal left behind is seen.
+    Thorough: also with a second request arriving while the first one is suspended."""
+    out = []
+    n = 0
+    firsts = [_call(0, m) for m in METHODS] + [['mcall', 0, m] for m in ('abort', 'queue', 'pause')]
+    for d in ('download', 'upload'):
+        for s in STATES:
+            for a in firsts:
+                for file in ('file', 'path'):
+                    for slow in (0, 1, 2) if tier == 'thorough' else (0, 1):
+                        n += 1
+                        fault = ['fsfault', 1 + (n + n // 4) % len(FS_FAULTS)]
+                        m = a[2]
+                        again = (['mcall', 1, m] if a[0] == 'call' else _call(1, m)) if m in ('abort', 'queue', 'pause') \
+                            and n % 2 else _call(1, 'queue')
+                        ini = _init_for(s, d, None)
+                        ini['file'] = file
+                        if slow == 0:
+                            steps = [[fault, list(a)], [['fsfault', 0]], [again], [['resume']]]
+                        elif slow == 1:
+                            steps = [[list(a)], [['resume']], [fault], [['resume']], [['resume']], [['resume']],
+                                     [['fsfault', 0], again]] + [[['resume']]] * 4
+                        else:
+                            steps = [[fault, list(a)], [again]] + [[['resume']]] * 8
+                        out.append({'kind': 'fault', 'dir': d, 'state': s, 'slow_cancel': int(slow > 0),
+                                    'slow_fs': int(slow > 0), 'ls': [[0, 0], [int(slow > 0), n % 2]], 'k': n % 3,
+                                    'init': ini, 'steps': steps})
+    # the requests that do remove the file (a download, a state that has the edge to ABORTED), in depth: which tasks
+    # are live, which entrance, what is asked next — and the caller giving up while the refusing file system is asked
+    for s in STATES:
+        if not _allowed('download', s, 'abort'):
+            continue
+        for tasks in ('none', 'transfer', 'queue', 'both'):
+            for mgr in (0, 1):
+                for i3, m3 in enumerate(('abort', 'queue', 'pause', 'fail', 'incomplete')):
+                    for slow in (0, 1, 2):
+                        n += 1
+                        fault = ['fsfault', 1 + (n + n // 3) % len(FS_FAULTS)]
+                        first = ['mcall', 0, 'abort'] if mgr else _call(0, 'abort')
+                        nxt = ['mcall', 1, m3] if m3 in ('abort', 'queue', 'pause') and (n + mgr) % 2 else _call(1, m3)
+                        ini = _init_for(s, 'download', None)
+                        ini.update(tasks=tasks, st=(None, 0)[n % 5 != 0])
+                        if slow == 0:
+                            steps = [[fault, first], [['fsfault', 0], nxt], [['resume']]]
+                        elif slow == 1:
+                            steps = [[first], [['resume']], [fault], [['resume']], [['resume']], [['fsfault', 0], nxt]] \
+                                + [[['resume']]] * 3
+                        else:       # the caller gives up while the request is suspended in the file-system call
+                            steps = [[fault, first], [['resume']], [['cancel', 0]], [nxt]] + [[['resume']]] * 3 \
+                                + [[['fsfault', 0], ['mcall', 2, 'abort']]] + [[['resume']]] * 3
+                        out.append({'kind': 'fault', 'dir': 'download', 'state': s, 'slow_cancel': int(slow > 0),
+                                    'slow_fs': int(slow > 0), 'stubborn': n % 2, 'ls': [[0, 0], [int(slow == 1), n % 2]],
+                                    'k': n % 3, 'init': ini, 'steps': steps})
+    return out
+
+
+def _with_faults(case: dict, frng: random.Random) -> dict:
+    """A history in which the file system starts / stops refusing removals at random moments (steps of their own)."""
+    steps = []
+    on = 0
+    for st in case['steps']:
+        if frng.random() < (0.5 if on else 0.25):
+            on = 0 if on else frng.choice(sorted(FS_FAULTS))
+            steps.append([['fsfault', on]])
+        steps.append(st)
+    return dict(case, steps=steps)
+
+
 LEGACIES = [None, {'a': 1}, {'o': 1}, {'a': 1, 'o': 1, 'k': 1}]
 
 
@@ -1178,9 +1274,9 @@ def _random_case(rng: random.Random, size: int) -> dict:
                 step.append(['setfile'])
         # `resume` acts on what is blocked at the START of the step, and what the environment does (spawn, setfile)
         # happens at once while calls only run when the loop turns: keep that order in the step
-        step.sort(key=lambda a: {'resume': 0, 'cancel': 0, 'spawn': 1, 'setfile': 1, 'reload': 1}.get(a[0], 2))
+        step.sort(key=lambda a: {'resume': 0, 'cancel': 0, 'spawn': 1, 'setfile': 1, 'reload': 1, 'fsfault': 1}.get(a[0], 2))
         if step and step[0][0] in ('resume', 'cancel'):     # the resumed / cancelled holder has not run yet when the next action is applied
-            step = [a for a in step if a[0] not in ('spawn', 'setfile', 'reload')]
+            step = [a for a in step if a[0] not in ('spawn', 'setfile', 'reload', 'fsfault')]
             if step[0][0] == 'cancel':
                 step = [a for a in step if a[0] != 'resume']
         case['steps'].append(step)
@@ -1240,6 +1336,8 @@ def _model_lines(case: dict, mode: str) -> list[str]:
                 out.append(f"{a[0]} {a[1]}")
             elif a[0] == 'spawn':
                 out.append('spawn')
+            elif a[0] == 'fsfault':
+                out.append(f"fsfault {int(bool(a[1])) if len(a) == 2 and a[1] in (0, *FS_FAULTS) else '?'}")
             else:
                 out.append(a[0])
         out.append('obs')
@@ -1302,8 +1400,13 @@ class C03(Property):
             'the real handler / resume / spawn / setfile / cancel the caller of an earlier request / reload), a quarter of '
             'them on a transfer read from the cache, all from VERIF_SEED; a case is non-trivial when some call arrived while '
             'another held the lock (a waiter was observed or two calls were issued in one step), or a caller was cancelled, '
-            'or the transfer was read from the cache — and at least one listener event happened; distinct = distinct '
-            'canonical case')
+            'or the transfer was read from the cache, or the file system refused a removal — and at least one listener event '
+            'happened; distinct = distinct canonical case. File-system faults (`fsfault`: aiofiles.os.remove raises '
+            'EACCES / EISDIR / EROFS / EBUSY until the fault ends): EXHAUSTIVE over (direction, state, request = every state '
+            'method and manager request) x fault present before the request / starting while the request is suspended in '
+            'front of the file-system call x file there / only its path, followed by the end of the fault and a second '
+            'request (thorough: also a second request arriving while the first is suspended); a fifth of the random '
+            'histories with faults starting and ending at random steps')
     assumptions = [
         'asyncio is cooperative and asyncio.Lock hands over FIFO (CPython 3.12); exercised, not modelled',
         'between two schedule steps the loop is run until nothing more can happen; overlap inside such a step '
@@ -1326,8 +1429,9 @@ class C03(Property):
                 'abort reason); TransferManager.add (the manager is listener 0), TransferManager.abort/queue/pause (refusal '
                 'raises), TransferManager.read_cache / write_cache (repair before add; a record of a transfer already held '
                 'is dropped), _on_peer_transfer_queue_failed; cancellation of the caller of a request at every point where '
-                'a request can be suspended (lock wait, gather over the cancelled tasks, file-system call, listener). Not '
-                'modelled: OSError during file removal, real peers (the cancelled tasks are stand-ins), the rest of the '
+                'a request can be suspended (lock wait, gather over the cancelled tasks, file-system call, listener); a '
+                'removal the file system refuses with OSError (XOp.fsFault: caught, path forgotten, file stays, the request '
+                'goes on — it is not a refusal). Not modelled: real peers (the cancelled tasks are stand-ins), the rest of the '
                 'manager, listeners added or removed while the transfer is in use, caches holding several transfers '
                 '(monitor only)')
 
@@ -1342,10 +1446,15 @@ class C03(Property):
         cases += _pair_burst_cases(rng)
         cases += _pair_cancel_cases(tier)
         cases += _load_cases(rng)
+        cases += _fault_cases(tier)
         cases += _loadmany_cases(rng, (60 if tier == 'quick' else 400) * widen)
         cases += _triple_cases(rng, None if tier == 'thorough' else 1500 * widen)
         n = (2500 if tier == 'quick' else 12000) * widen
-        cases += [_random_case(rng, rng.choice([3, 5, 8])) for _ in range(n)]
+        hist = [_random_case(rng, rng.choice([3, 5, 8])) for _ in range(n)]
+        # a fifth of the histories with file-system faults; their own generator, so that the histories themselves are
+        # the ones earlier versions of this check drew from the same seed
+        frng = random.Random(f'C03-faults-{seed}')
+        cases += [_with_faults(c, frng) if i % 5 == 0 else c for i, c in enumerate(hist)]
         return cases
 
     def correspondence(self, seed, tier, model_ok, widen=1):
@@ -1412,6 +1521,17 @@ class C03(Property):
                              'in-file-system-call' if mine[-1]['kind'] == 'fs-wait' else
                              'in-task-cancellation' if mine[-1]['kind'] == 'cancel' and mine[-1]['live'] > 0 else 'other')
                     res.count('cancelled:' + where)
+            n_rmfail = sum(1 for e in io['log'] if e['kind'] == 'rm-fail')
+            if any(a[0] == 'fsfault' and a[1] for st in c['steps'] for a in st):
+                res.count('cases-with-file-system-fault')
+            if n_rmfail:
+                res.count('cases-with-refused-removal')
+                res.count('removals-refused-by-the-file-system', n_rmfail)
+                for e in io['log']:
+                    if e['kind'] == 'rm-fail':
+                        res.count(f"refused-removal:{errno.errorcode.get(e['errno'], e['errno'])}")
+                if any(e['kind'] == 'fs-wait' for e in io['log']):
+                    res.count('removal-refused-after-suspension-in-file-system-call')
             res.count('reloads', sum(1 for st in c['steps'] for a in st if a[0] == 'reload'))
             res.count('peer-messages', sum(1 for st in c['steps'] for a in st if a[0] == 'pcall'))
             il = io['lines']
@@ -1427,7 +1547,7 @@ class C03(Property):
                 res.count('cases-with-overlap')
             if any('lock=1' in l for l in obs):
                 res.count('cases-with-suspended-holder')
-            if (overlapped or n_cancel or c.get('load') is not None) and n_ev > 0:
+            if (overlapped or n_cancel or n_rmfail or c.get('load') is not None) and n_ev > 0:
                 res.nontrivial_keys.add(common.sha({k: v for k, v in c.items() if k != 'kind'}))
             if model is not None:
                 res.traces_validated += 1
